@@ -137,7 +137,7 @@ func main() {
 		}
 	case "forge", "leak":
 		o := fsOpts{seed: *seed, n: *n, length: *length, workers: *workers, driver: *driver, rs: ints(*rss), scratch: scratch, known: loadKnown(*knownPath),
-			thoroughCuts: *allCuts, pipes: splitSemi(*pipes), keyDir: *keyDir}
+			thoroughCuts: *allCuts, pipes: splitSemi(*pipes), keyDir: *keyDir, from: *from, to: *to}
 		o.watchdog = time.Duration(*wd) * time.Second
 		for _, p := range o.pipes {
 			if _, err := h.WithPipe(h.DefaultCfg(), p, o.keyDir); err != nil {
